@@ -45,6 +45,8 @@ structure Cfg where
   fieldPaths : List String
   /-- resources that customize rules may name -/
   related : List ChildRes := []
+  /-- cc.spec.parentResource.ignoreStatusChanges -/
+  ignoreStatusChanges : Bool := false
   deriving Inhabited
 
 def Cfg.parentAPIVersion (c : Cfg) : String :=
